@@ -35,6 +35,7 @@ pub struct Profile {
     pub w_par: u32,     // percent of write transactions that begin with a multi-threaded section
     pub w_predpanic: u32, // percent of retain / extract steps whose predicate panics after a few calls
     pub w_burst: u32,     // per mille of write transactions that are a savepoint-counter burst (once per run)
+    pub w_panicdrop: u32, // percent of write transactions that start a 'dropped during unwinding' episode (ends with a reopen)
 }
 
 impl Profile {
@@ -64,6 +65,7 @@ impl Profile {
             w_par: 0,
             w_predpanic: 0,
             w_burst: 7,
+            w_panicdrop: 0,
         };
         match name {
             "table" => base,
@@ -104,6 +106,7 @@ impl Profile {
                 w_acct: 100,
                 w_settle: 2,
                 w_predpanic: 25,
+                w_panicdrop: 3,
                 ..base
             },
             "reader" => Profile {
@@ -231,6 +234,7 @@ impl Profile {
                 w_integrity: 6,
                 ops_per_txn: 10,
                 w_acct: 30,
+                w_panicdrop: 3,
                 ..base
             },
             "pages" => Profile {
@@ -727,6 +731,41 @@ impl Gen {
                 }
                 self.queue.push_back(json!({"e": "close", "n": n}));
                 self.queue.push_back(json!({"e": "commit"}));
+                return;
+            }
+        }
+        if rng.random_range(0..100) < self.p.w_panicdrop {
+            // a write transaction with allocations is dropped while a panic unwinds through it (its pages leak until the
+            // database is reopened and no clean shutdown may be recorded meanwhile); other transactions end - by abort, drop
+            // and commit - before the database is closed and reopened: the leak must be gone then
+            let normal: Vec<(String, Ty)> = self.known.iter().filter(|(_, t)| t.0 == "t").map(|(n, t)| (n.clone(), t.clone())).collect();
+            if !normal.is_empty() {
+                let (n, ty) = normal[rng.random_range(0..normal.len())].clone();
+                let endings = ["dropwp", ["abort", "dropw"][rng.random_range(0..2)], ["commit", "abort", "dropw"][rng.random_range(0..3)]];
+                for ending in endings {
+                    self.queue.push_back(json!({"e": "bw"}));
+                    self.queue.push_back(json!({"e": "open", "n": n, "kind": "t", "kt": ty.1, "vt": ty.2}));
+                    for _ in 0..rng.random_range(2..8) {
+                        let v = self.value(rng, &ty.2);
+                        self.queue.push_back(json!({"e": "ins", "n": n, "k": self.key(rng, &n), "v": v}));
+                    }
+                    self.queue.push_back(json!({"e": "close", "n": n}));
+                    self.queue.push_back(json!({"e": ending}));
+                    if self.p.w_acct > 0 {
+                        self.queue.push_back(json!({"e": "acct"}));
+                    }
+                }
+                // everything that refers to the database goes first
+                for it in &self.its {
+                    self.queue.push_back(json!({"e": "itdrop", "it": it}));
+                }
+                for (h, _) in &self.readers {
+                    self.queue.push_back(json!({"e": "dr", "h": h}));
+                }
+                for s in &self.sps {
+                    self.queue.push_back(json!({"e": "spdrop", "s": s}));
+                }
+                self.queue.push_back(json!({"e": "reopen"}));
                 return;
             }
         }
